@@ -30,8 +30,8 @@ import (
 var (
 	poolProf   = []agd.ProfileID{"p0", "p1", "p2", "p3", "p4"}
 	poolDev    = []agd.DeviceID{"d0", "d1", "d2", "d3", "d4", "d5", "d6", "d7"}
-	poolLinked = []netip.Addr{mustAddr("10.0.0.1"), mustAddr("10.0.0.2"), mustAddr("10.0.0.3"), mustAddr("10.0.0.4"), mustAddr("2001:db8::1"), mustAddr("2001:db8::2")}
-	poolDed    = []netip.Addr{mustAddr("192.0.2.1"), mustAddr("192.0.2.2"), mustAddr("192.0.2.3"), mustAddr("192.0.2.4"), mustAddr("2001:db8:1::1"), mustAddr("2001:db8:1::2")}
+	poolLinked = []netip.Addr{mustAddr("10.0.0.1"), mustAddr("10.0.0.2"), mustAddr("10.0.0.3"), mustAddr("10.0.0.4"), mustAddr("2001:db8::1"), mustAddr("2001:db8::2"), mustAddr("::ffff:10.0.0.1")}
+	poolDed    = []netip.Addr{mustAddr("192.0.2.1"), mustAddr("192.0.2.2"), mustAddr("192.0.2.3"), mustAddr("192.0.2.4"), mustAddr("2001:db8:1::1"), mustAddr("2001:db8:1::2"), mustAddr("::ffff:192.0.2.1")}
 	poolHid    = []agd.HumanIDLower{"h0", "h1", "h2", "h3-x--y"}
 
 	seqPools = &pools{prof: poolProf, dev: poolDev, linked: poolLinked, ded: poolDed, hid: poolHid}
